@@ -35,7 +35,7 @@ func init() {
 			"(2) 15 parameter layouts (nil / empty / non-empty operation list, override, same name in another location, duplicates inside a list, a parameter after an overridden one, absent required / optional, `$ref` parameters) × all 8 option sets (the six Options fields the orchestration does not read rotating through their 64 combinations) × 7 body shapes (none, valid, invalid, missing required, absent optional, undeclared media type) × passing/failing security, every other case with request parts no parameter looks up (another header, another cookie, a second cookie of a name already sent with an invalid value); " +
 			"(3) every combination of request constructor (http.NewRequest, httptest.NewRequest) × route source (hand-built, gorillamux, legacy) × document source (Go values, marshalled and loaded) × callback reads the body or not × nil Options on a set of representative operations; the combinations also rotate through blocks 1 and 2; " +
 			"(4) a seeded random stream over all of these dimensions with up to 4+4 parameters and 3 requirements, a quarter of the cases followed by a history of 1-3 further calls; " +
-			"(5) histories of 5-6 calls for one operation and the same request facts: 15 parameter layouts × 7 body shapes and 11 × 10 security shape pairs, the later calls reusing {the same RequestValidationInput, a new input around the same *http.Request, a new request against the same document / route / router} with Options {a new struct, the old struct rewritten in place, nil}, flags flipped, the callback's verdicts changed or the callback removed: every call is compared with the model's and the specification's entry for it. " +
+			"(5) histories of 5-6 calls for one operation and the same request facts: 15 parameter layouts × 7 body shapes and 11 × 10 security shape pairs, the later calls reusing {the same RequestValidationInput, a new input around the same *http.Request, a new request against the same document / route / router} with Options {a new struct, the old struct rewritten in place, nil}, flags flipped, the callback's verdicts changed or the callback removed: and 15 layouts × 8 option sets alternating between the operation and a sibling operation of the same path item (no parameters of its own: every path-level parameter is in effect for it); every call is compared with the model's and the specification's entry for it. " +
 			"A case is non-trivial when the model reports at least one non-default branch.",
 		Exhaustive: true,
 		Gen:        genC07,
@@ -149,6 +149,16 @@ func c07Doc(c hx.Case) *c07built {
 		return &openapi3.ParameterRef{Value: p}
 	}
 	pi := &openapi3.PathItem{Post: op}
+	for _, st := range jlist(c["history"]) {
+		if sm, _ := st.(map[string]any); jstr(sm, "reuse") == "sibling" && pi.Get == nil {
+			// the sibling operation of the same path item: same security, no parameters and no body of its own
+			pi.Get = &openapi3.Operation{Responses: openapi3.NewResponses()}
+			if c["opSecurity"] != nil {
+				s := c07Reqs(c["opSecurity"])
+				pi.Get.Security = &s
+			}
+		}
+	}
 	for _, pm := range jlist(c["pathParams"]) {
 		pi.Parameters = append(pi.Parameters, mk(pm.(map[string]any)))
 	}
@@ -289,6 +299,9 @@ func runC07(c hx.Case) any {
 	}
 	handRoute := &routers.Route{Spec: b.doc, Path: b.path, PathItem: b.pathItem, Method: "POST", Operation: b.op}
 	find := func(req *http.Request) (*routers.Route, map[string]string, string, map[string]any) {
+		if req.Method == "GET" && gorillaR == nil && legacyR == nil {
+			return &routers.Route{Spec: b.doc, Path: b.path, PathItem: b.pathItem, Method: "GET", Operation: b.pathItem.Get}, b.pathValues, "direct", nil
+		}
 		switch {
 		case gorillaR != nil:
 			rt, pp, err := gorillaR.FindRoute(req)
@@ -326,6 +339,23 @@ func runC07(c hx.Case) any {
 		case "request":
 			in = &openapi3filter.RequestValidationInput{Request: in.Request, PathParams: in.PathParams, Route: in.Route,
 				Options: in.Options, QueryParams: in.QueryParams}
+		case "sibling":
+			// a request for the other operation of the same path item: same URL, query, headers and cookies, GET, no body
+			req2 := c07Request(c, b, jstr(build, "req"))
+			req2.Method, req2.Body, req2.GetBody, req2.ContentLength = "GET", http.NoBody, nil, 0
+			req2.Header.Del("Content-Type")
+			rt, pp, _, bad := find(req2)
+			if bad != nil {
+				return bad
+			}
+			if rt.Operation == nil || rt.Operation != b.pathItem.Get {
+				return map[string]any{"routeError": "the sibling operation was not routed to"}
+			}
+			// (the input of the case's own operation stays the one later "input" / "request" steps reuse)
+			sin := &openapi3filter.RequestValidationInput{Request: req2, PathParams: pp, Route: rt, Options: in.Options}
+			hist = append(hist, c07Call(sc, sin, b.doc, jstr(sm, "optsHow")))
+			in.Options = sin.Options
+			continue
 		case "doc":
 			req2 := c07Request(c, b, jstr(build, "req"))
 			rt, pp, _, bad := find(req2)
@@ -838,6 +868,22 @@ func genC07(ctx *hx.Ctx, emit func(hx.Case)) {
 			}
 		}
 	}
+	// two operations of one path item: the case's operation, then its sibling (no parameters of its own: every
+	// path-level parameter is in effect), the first again, the sibling again
+	for li, lay := range c07ParamLayouts {
+		for o := 0; o < 8; o++ {
+			yes := []any{"a()"}
+			hist := []any{
+				optStep("sibling", hows[o%2], o, yes, nil),
+				optStep("doc", hows[(o+1)%2], o, yes, nil),
+				optStep("sibling", "new", o^4, yes, nil),
+				optStep("input", "mutate", o^3, yes, nil),
+			}
+			out(hx.Case{"opParams": lay[0], "pathParams": lay[1], "opSecurity": c07SecShapes[(li+o)%4], "docSecurity": c07SecShapes[3],
+				"accepted": yes, "body": c07Bodies[(li+o)%len(c07Bodies)], "excludeBody": o&1 != 0, "excludeQuery": o&2 != 0, "multi": o&4 != 0,
+				"authReadsBody": (li+o)%2 == 0, "history": hist})
+		}
+	}
 	for oi, opSec := range c07SecShapes {
 		for di, docSec := range c07SecShapes {
 			if docSec == nil {
@@ -953,7 +999,7 @@ func genC07(ctx *hx.Ctx, emit func(hx.Case)) {
 						a2 = append(a2, key)
 					}
 				}
-				hist = append(hist, map[string]any{"reuse": hx.Pick(r, []string{"input", "request", "doc"}), "optsHow": hx.Pick(r, []string{"new", "mutate"}),
+				hist = append(hist, map[string]any{"reuse": hx.Pick(r, []string{"input", "request", "doc", "sibling"}), "optsHow": hx.Pick(r, []string{"new", "mutate"}),
 					"excludeBody": r.Chance(40), "excludeQuery": r.Chance(40), "multi": r.Bool(), "accepted": a2,
 					"authNil": r.Chance(10), "optionsNil": r.Chance(10), "authReadsBody": r.Chance(40), "otherOpts": c07Other(r.Intn(64))})
 			}
